@@ -9,6 +9,7 @@ import Mkdb.Driver.Db
 import Mkdb.Driver.Sess
 import Mkdb.Driver.Lock
 import Mkdb.Driver.Wal
+import Mkdb.Driver.BSearch
 open Mkdb.Driver
 
 def main (args : List String) : IO UInt32 := do
@@ -37,4 +38,6 @@ def main (args : List String) : IO UInt32 := do
   | ["judge", "lock"] => judgeLoop stdin stdout ({} : Lock.J) Lock.judgeLine; return 0
   | ["model", "wal"] => modelLoop stdin stdout () Wal.stepLine; return 0
   | ["judge", "wal"] => judgeLoop stdin stdout ({} : Wal.J) Wal.judgeLine; return 0
+  | ["model", "bsearch"] => modelLoop stdin stdout () BSearch.stepLine; return 0
+  | ["judge", "bsearch"] => judgeLoop stdin stdout ({} : BSearch.J) BSearch.judgeLine; return 0
   | _ => IO.eprintln "usage: mkdbdrv model|judge <proto>"; return 2
